@@ -1,0 +1,116 @@
+//go:build verif
+
+package goja
+
+// White-box accessors for verification property C11 (Proxy invariant checks).  Add-only; compiled only
+// with -tags verif.  Each function calls the REAL check of proxy.go on inputs assembled by the harness;
+// nothing here re-implements a check.
+
+// VerifC11Prop builds the Value an own-property lookup returns: kind 0 = nil (no such property),
+// 1 = a plain value (writable, enumerable, configurable data property), 2 = *valueProperty.
+func VerifC11Prop(kind int, value Value, writable, configurable, enumerable, accessor bool, getter, setter *Object) Value {
+	switch kind {
+	case 0:
+		return nil
+	case 1:
+		return value
+	}
+	return &valueProperty{
+		value:        value,
+		writable:     writable,
+		configurable: configurable,
+		enumerable:   enumerable,
+		accessor:     accessor,
+		getterFunc:   getter,
+		setterFunc:   setter,
+	}
+}
+
+// VerifC11PropInfo is the inverse of VerifC11Prop (kind as above).
+func VerifC11PropInfo(v Value) (kind int, value Value, writable, configurable, enumerable, accessor bool, getter, setter *Object) {
+	if v == nil {
+		return 0, nil, false, false, false, false, nil, nil
+	}
+	if p, ok := v.(*valueProperty); ok {
+		return 2, p.value, p.writable, p.configurable, p.enumerable, p.accessor, p.getterFunc, p.setterFunc
+	}
+	return 1, v, true, true, true, false, nil, nil
+}
+
+func verifC11Proxy(proxy *Object) *proxyObject {
+	if proxy == nil {
+		return nil
+	}
+	p, _ := proxy.self.(*proxyObject)
+	return p
+}
+
+// verifC11Try runs f; a thrown TypeError is reported as "TE", any other JS exception as "ERR:<text>".
+func verifC11Try(r *Runtime, f func()) (status string) {
+	ex := r.vm.try(f)
+	if ex == nil {
+		return ""
+	}
+	if o, ok := ex.val.(*Object); ok {
+		if name := o.self.getStr("name", nil); name != nil && name.String() == "TypeError" {
+			return "TE"
+		}
+	}
+	return "ERR:" + ex.Error()
+}
+
+// VerifC11IsCompatible calls proxyObject.__isCompatibleDescriptor.  cur must come from VerifC11Prop
+// (kind 0 or 2) — a plain value is wrapped by propToValueProp exactly as the callers in proxy.go do.
+func VerifC11IsCompatible(proxy *Object, extensible bool, desc PropertyDescriptor, cur Value) bool {
+	p := verifC11Proxy(proxy)
+	return p.__isCompatibleDescriptor(extensible, &desc, propToValueProp(cur))
+}
+
+// VerifC11DefinePostCheck calls proxyDefineOwnPropertyPostCheck(prop, target, descr).
+func VerifC11DefinePostCheck(proxy *Object, prop Value, descr PropertyDescriptor) string {
+	p := verifC11Proxy(proxy)
+	return verifC11Try(p.val.runtime, func() { p.proxyDefineOwnPropertyPostCheck(prop, p.target, descr) })
+}
+
+// VerifC11HasChecks calls proxyHasChecks(prop, target, name).
+func VerifC11HasChecks(proxy *Object, prop Value) string {
+	p := verifC11Proxy(proxy)
+	return verifC11Try(p.val.runtime, func() { p.proxyHasChecks(prop, p.target, asciiString("x")) })
+}
+
+// VerifC11GetOwnPropertyDescriptor calls proxyGetOwnPropertyDescriptor(prop, target, trapResult, name).
+func VerifC11GetOwnPropertyDescriptor(proxy *Object, prop Value, trapResult Value) (ret Value, status string) {
+	p := verifC11Proxy(proxy)
+	status = verifC11Try(p.val.runtime, func() {
+		ret = p.proxyGetOwnPropertyDescriptor(prop, p.target, trapResult, asciiString("x"))
+	})
+	return
+}
+
+// VerifC11GetChecks calls proxyGetChecks(prop, trapResult, name).
+func VerifC11GetChecks(proxy *Object, prop Value, trapResult Value) string {
+	p := verifC11Proxy(proxy)
+	return verifC11Try(p.val.runtime, func() { p.proxyGetChecks(prop, trapResult, asciiString("x")) })
+}
+
+// VerifC11SetPostCheck calls proxySetPostCheck(prop, value, name).
+func VerifC11SetPostCheck(proxy *Object, prop Value, value Value) string {
+	p := verifC11Proxy(proxy)
+	return verifC11Try(p.val.runtime, func() { p.proxySetPostCheck(prop, value, asciiString("x")) })
+}
+
+// VerifC11DeleteCheck calls proxyDeleteCheck(trapResult, prop, name, target, throw).
+func VerifC11DeleteCheck(proxy *Object, trapResult bool, prop Value, throw bool) string {
+	p := verifC11Proxy(proxy)
+	return verifC11Try(p.val.runtime, func() { p.proxyDeleteCheck(trapResult, prop, asciiString("x"), p.target, throw) })
+}
+
+// VerifC11Revoke revokes a proxy created through the Go API or in JS.
+func VerifC11Revoke(proxy *Object) bool {
+	p := verifC11Proxy(proxy)
+	if p == nil {
+		return false
+	}
+	p.revoke()
+	return true
+}
